@@ -25,7 +25,8 @@ META = {
              "univariate families, and the stream state machine (rng given => global stream untouched, draws a "
              "function of the given generator's state, return shapes, conditional => error) on all behaviours up to "
              "the bounded length; every emitted configuration / behaviour is replayed on the real distributions with "
-             "stub and real generators."),
+             "stub and real generators, the affine read-off and the wiring tables both with a generator given and with "
+             "none (numpy's module-level functions scripted)."),
     "note": ("No statistics: the law of numpy/scipy base generators is trusted; ModifiedHalfNormal acceptance envelopes "
              "are not modelled (parameter wiring and stream behaviour only). Bounded sizes (Gaussian dim <= 3 with "
              "MIN_DIM_SPARSE lowered to 2, plus diagonal forms at the real threshold 75/76; GMRF n <= 6/8 in 1-D, "
